@@ -5,6 +5,9 @@
 #include "api.h"
 
 static int fam, alg, klen;
+/* an empty associated data string is alternately NULL and a valid pointer with length 0 */
+static unsigned adp_toggle;
+#define ADP(p, n) ((n) ? (p) : ((adp_toggle++ & 1) ? (p) : 0))
 static const char *famname[] = {"oneshot", "incremental", "masked", "siv", "isap"};
 static char keybase[64];
 
@@ -49,7 +52,7 @@ static void expect_reject(const char *what, size_t pos, uint8_t *mout, size_t mc
 {
     char kb[96]; size_t ml;
     memset(mout, 0xAA, mcap);
-    int r = do_dec(mout, &ml, c, clen, adlen ? ad : 0, adlen, n, k);
+    int r = do_dec(mout, &ml, c, clen, ADP(ad, adlen), adlen, n, k);
     hx_stat("evaluations", 1); forged++;
     if (r >= 0) {
         snprintf(kb, sizeof kb, "%s:accepts-forgery:%s", keybase, what);
@@ -70,9 +73,9 @@ static void shape(size_t adlen, size_t mlen, int pat, int full_tag)
     uint8_t *ad = hx_buf(adlen), *m = hx_buf(mlen), *c = hx_buf(mlen + 16 + 16), *m2 = hx_buf(mlen);
     size_t clen = mlen + 16, ml; char kb[96]; char ps[8]; snprintf(ps, sizeof ps, "%d", pat);
     hx_fill(key, klen, pat, 1); hx_fill(nonce, 16, pat, 2); hx_fill(ad, adlen, pat, 3); hx_fill(m, mlen, pat, 4);
-    do_enc(c, m, mlen, adlen ? ad : 0, adlen, nonce, key);
+    do_enc(c, m, mlen, ADP(ad, adlen), adlen, nonce, key);
     memset(m2, 0xAA, mlen);
-    int r = do_dec(m2, &ml, c, clen, adlen ? ad : 0, adlen, nonce, key);
+    int r = do_dec(m2, &ml, c, clen, ADP(ad, adlen), adlen, nonce, key);
     hx_stat("evaluations", 1);
     snprintf(kb, sizeof kb, "%s:roundtrip", keybase);
     if (r != 0) hx_fail(kb, "unmodified ciphertext rejected (result %d) adlen=%zu mlen=%zu pat=%d", r, adlen, mlen, pat);
